@@ -13,6 +13,17 @@ import z3
 MAXCP = 0x110000
 
 
+def rule_pattern(rule):
+    """pattern text of a ply token rule: the rule is a string, or a function whose pattern is its `regex` attribute (set by
+    ply.lex.TOKEN) or its docstring"""
+    if isinstance(rule, str):
+        return rule
+    pat = getattr(rule, 'regex', None) or getattr(rule, '__doc__', None)
+    if not isinstance(pat, str):
+        raise TypeError('no pattern on token rule %r' % (rule,))
+    return pat
+
+
 def from_pred(pred):
     out = []
     start = None
